@@ -25,7 +25,7 @@ CLAIMED = {
                 note='OS pipe behaviour; AST scan finds print/sys.stdout.write/traceback sites only'),
     'C10': dict(design='§6 C10', technique='Lean 4 proof (refinement of the backtracking enumerator to a specification list; cursor coverage) + exact sequence diff of MarkovCracker',
                 text='level_exact: the generator emits exactly the strings of the level, once, then exhaustion, for every well-formed table; real MarkovCracker sequences (fresh and warmed shared cache) equal the model and a brute-force level set.',
-                note='memo table: C10_cache_independent / C10_cache_history (fillC = fill for every table of true results) + C10_cache_sites (all optimizer calls sit in _fill_out_parse_tree with key (ip, length, target), regenerated from source) + direct correspondence of the table contents'),
+                note='memo table: C10_cache_independent / C10_cache_history (fillC = fill for every table of true results) + C10_cache_sites (all optimizer calls sit in _fill_out_parse_tree with key (ip, length, target), regenerated from source) + direct correspondence of the table contents; C10_memo_table_per_object (the only Optimizer construction site is the body of PcfgGrammar.__init__, regenerated from source); tables and memo table also taken from PcfgGrammar objects built one after the other'),
     'C14': dict(design='§6 C14', technique='Lean 4 proof (loadBase skip = filter + rescale; case insertion) + loader correspondence + stream comparison + CLI save/restore',
                 text='Loader theorems for every grammar.txt text incl. no-M; streams compared exactly where 1-P(M) is a power of two; flags through --load by subprocess.',
                 note='C14_order_preserved: over exact rationals rescaling preserves every comparison, so with C01/C02 the skip_brute stream is the default stream without Markov pre-terminals; over doubles up to rounding of the rescaling (checked exactly where 1-P(M) is a power of two)'),
@@ -40,7 +40,7 @@ CLAIMED = {
                 note='which parse the trainer chooses is C05; float mass compared with tolerance; multiword detector threshold is runtime data'),
     'C05': dict(design='§6 C05', technique='Lean 4 proof (tiling invariant of every detector stage and of the whole pipeline for any Unicode database that preserves length under the detectors\' lower-casing) + correspondence of all detectors on generated passwords',
                 text='Theorems: for every input and every Unicode environment with length-preserving lower-casing the keyboard/e-mail/website/year/context/alpha/digit/other stages keep a tiling of the password, every section ends labelled, labels carry the section length, keyboard sections are single-layout walks of >= 4 keys. Detector tables (layouts, TLDs, year prefixes, context list) regenerated from the source each run; the real detectors compared section by section.',
-                note='CPython Unicode database enters as a parameter (validated per code point for the letters used); multiword trie contents are data'),
+                note='CPython Unicode database enters as a parameter (validated per code point for the letters used; the alpha-position law of C05_other_sound over all code points each run); multiword trie contents are data. C05_other_sound: the detector loops run to their end with the pipeline fuel - other segments contain no letter and no digit; C05_len_indexed_counters: the length-indexed counters are tallies (model of _update_counter_len_indexed driven against the real method)'),
     'C13': dict(design='§6 C13, §11.3', technique='Lean 4 proof (the promise: non-zero score = probability of a pre-terminal of the guesser\'s grammar that emits the string, via coherence of the parser\'s lists with its sections + the C07 loader round trips + the C03 derivation lemma; e-mail/website ⇒ 0) + real scorer vs model (bit-exact) and vs real guesser enumeration',
                 text='C13_promise: for every password, Unicode environment with length-preserving lower-casing and one-to-one case mapping on the password (CaseInvAll), ruleset views loaded from the same files (Agree; shown for the loader models by C13_same_files) and any commutative probability monoid: score ≠ 0 ⇒ ∃ base structure and group indices with _find_prob = score and the password in productSpec. C13_coherent: the scorer\'s lists are the labelled sections\' texts. C13_email_web_zero. Where CaseInvAll fails the promise fails on the real code (recorded known finding).',
                 note='exact arithmetic in the theorem; over doubles the two products differ by rounding (harness tolerance 1e-12 relative); OMEN level scoring is C11; the scorer\'s own multi-word table is data (any table, universally quantified)'),
@@ -52,7 +52,7 @@ CLAIMED = {
                 note='OS scheduling and input() per stdin kind observed, not proved; GIL atomicity trusted'),
     'C15': dict(design='§6 C15, App. B', technique='Lean 4 proof (exit/resume exactness for arbitrary starting files, no-replay, enumerator state split) + scripted quits at every guess position with 2-3 resume cycles',
                 text='printed ++ remaining(files left) = remaining(start) for every schedule; option removed after the restored level; real sessions quit at each j and resumed, concatenation = uninterrupted stream.',
-                note='pickle/configparser round trips trusted; quit inside the very last Markov pre-terminal is a recorded known finding (C15_last_unit_loss shows the excluded point in the model)'),
+                note='pickle/configparser round trips trusted; quit inside the very last Markov pre-terminal is a recorded known finding (C15_last_unit_loss shows the excluded point in the model). The state machine yields before every call of the OMEN generator (the end-of-level window is a schedule); C15_session_files_injective + C15_file_name_expressions: different session names never share a .sav / .omn file (name expressions regenerated from source); the program itself is quit by a typed q inside a Markov level and resumed'),
     'C11': dict(design='§6 C11', technique='Lean 4 proof (scorer = trainer = levelOf over loaded tables; with C10: guesser emits s at L iff trainer level L) + correspondence of the three real implementations',
                 text='find_omen_level, OmenScorer.parse and the real MarkovCracker agree with each other and with the model on training, perturbed and boundary strings; guesser side proved exact in C10.',
                 note='smoothing (log/floor) modelled not verified: levels are inputs'),
